@@ -264,10 +264,21 @@ class MiniEval:
         self.natives.setdefault("chain", _Chain)
         # standard-library helpers the construction code may import (evaluated by the real functions: they are pure)
         import collections as _collections
+        import functools as _functools
         import operator as _operator
+        import string as _string
+
+        def _methodcaller(name, *a, **k):
+            # operator.methodcaller on evaluated objects: the method is looked up through the evaluator's own attribute protocol
+            def call(obj):
+                return getattr(obj, name)(*a, **k)
+            return call
         for _nm, _v in (("namedtuple", _collections.namedtuple), ("count", itertools.count), ("product", itertools.product),
                         ("combinations", itertools.combinations), ("repeat", itertools.repeat), ("attrgetter", _operator.attrgetter),
-                        ("itemgetter", _operator.itemgetter), ("operator", _operator), ("itertools", itertools),
+                        ("itemgetter", _operator.itemgetter), ("methodcaller", _methodcaller), ("operator", _operator), ("itertools", itertools),
+                        ("object", object), ("Template", _string.Template), ("string", _string), ("functools", _functools),
+                        ("partial", _functools.partial), ("reduce", _functools.reduce), ("starmap", itertools.starmap),
+                        ("zip_longest", itertools.zip_longest), ("islice", itertools.islice), ("accumulate", itertools.accumulate),
                         ("ModelConstructionError", type("ModelConstructionError", (Exception,), {})),
                         ("ModelDefinitionError", type("ModelDefinitionError", (Exception,), {}))):
             self.natives.setdefault(_nm, _v)
